@@ -36,22 +36,55 @@ type srcFile struct {
 func e6Sources(c *Ctx, nfiles int) []srcFile {
 	var files []srcFile
 	var progs []*e1.Program
-	rg, _ := genr.Range(c.Seed, 60, nil)
+	rg, _ := genr.Range(c.Seed, 60, c.Rep.QuarantinedFeatures())
 	progs = append(progs, rg...)
 	progs = append(progs, genr.Scope(40, c.Seed)...)
 	progs = append(progs, genr.Random(genr.Ctl, 60, c.Seed, c.Rep.QuarantinedFeatures())...)
 	progs = append(progs, cases.Scope()...)
 	progs = append(progs, cases.Fx()...)
+	for _, p := range cases.Range() {
+		quarantined := false
+		for _, f := range p.Features {
+			if c.Rep.QuarantinedFeatures()[f] {
+				quarantined = true
+			}
+		}
+		if !quarantined {
+			progs = append(progs, p)
+		}
+	}
 	per := (len(progs) + nfiles - 1) / nfiles
 	for i := 0; i < nfiles; i++ {
 		st := render.Style(i % int(render.NStyles))
-		var b strings.Builder
-		fmt.Fprintf(&b, "package p\n\nimport (\n%s\t\"scratch/drv\"\n\t\"scratch/tr\"\n)\n\nvar _ = tr.E\nvar _ = drv.Cleanup\n%s\n", st.ImportBlock(), st.ExtraDecls(fmt.Sprint(i)))
+		var body strings.Builder
+		imps := map[string]bool{}
 		for j := i * per; j < (i+1)*per && j < len(progs); j++ {
 			progs[j].ID = j
-			b.WriteString(render.Co(progs[j].Neutral, progs[j].Prefix(), st))
-			b.WriteString("\n")
+			if len(progs[j].Files) > 0 {
+				continue // programs that need extra data files are not part of this workload
+			}
+			for _, im := range progs[j].Imports {
+				imps[im] = true
+			}
+			body.WriteString(render.Co(progs[j].Neutral, progs[j].Prefix(), st))
+			body.WriteString("\n")
 		}
+		var ib strings.Builder
+		var names []string
+		for im := range imps {
+			names = append(names, im)
+		}
+		sort.Strings(names)
+		for _, im := range names {
+			if strings.HasPrefix(im, "_") {
+				fmt.Fprintf(&ib, "\t_ %q\n", im[1:])
+			} else {
+				fmt.Fprintf(&ib, "\t%q\n", im)
+			}
+		}
+		var b strings.Builder
+		fmt.Fprintf(&b, "package p\n\nimport (\n%s%s\t\"scratch/drv\"\n\t\"scratch/tr\"\n)\n\nvar _ = tr.E\nvar _ = drv.Cleanup\n%s\n", ib.String(), st.ImportBlock(), st.ExtraDecls(fmt.Sprint(i)))
+		b.WriteString(body.String())
 		files = append(files, srcFile{pkg: "p", name: fmt.Sprintf("f%02d.go", i), text: b.String()})
 	}
 	files = append(files, srcFile{pkg: "p", name: "shared.go", text: "package p\n\n// package-level state declared in a file the compiler does not process\nvar SharedG int\n"})
@@ -70,13 +103,17 @@ func e6Sources(c *Ctx, nfiles int) []srcFile {
 }
 
 type e6Config struct {
-	name    string
-	root    string            // absolute root of the tree
-	files   []srcFile         // files to write (rel = pkg/name)
-	extra   map[string]string // additional files: rel path -> text
-	prefill map[string]string // files written into dst / dst_tmp before the run
-	first   []srcFile         // a different tree compiled FIRST in the same process
-	env     []string
+	// failFirst: a FIRST compile into the same dst of the same tree plus a file the compiler rejects
+	// (the compiler panics half-way); that file and dropFile are then removed before the real run
+	failFirst string
+	dropFile  string
+	name      string
+	root      string            // absolute root of the tree
+	files     []srcFile         // files to write (rel = pkg/name)
+	extra     map[string]string // additional files: rel path -> text
+	prefill   map[string]string // files written into dst / dst_tmp before the run
+	first     []srcFile         // a different tree compiled FIRST in the same process
+	env       []string
 }
 
 var helperDef = regexp.MustCompile(`^ɪʇ\d+$`)
@@ -159,6 +196,8 @@ func C15(c *Ctx) {
 		e6Config{name: "second-compile-in-same-process", files: files, first: append([]srcFile{{pkg: "w", name: "w.go", text: strings.Replace(extraBefore, "package p", "package w", 1)}}, other...)},
 		e6Config{name: "dst-and-dst_tmp-prepopulated", files: files, prefill: map[string]string{}},
 		e6Config{name: "different-absolute-root", files: files, root: deep},
+		e6Config{name: "after-a-rejected-run-into-the-same-dst", files: files, dropFile: "p/f00.go",
+			failFirst: "package p\n\nimport . \"github.com/goghcrow/go-co\"\n\nfunc ZZRejected() Iter[int] {\n\tn := 0\nagain:\n\tn++\n\tYield(n)\n\tif n < 2 {\n\t\tgoto again\n\t}\n\treturn nil\n}\n"},
 	)
 	// prefill: outputs of a different earlier run (computed below from the "other" tree) are placed into dst and dst_tmp
 
@@ -192,6 +231,16 @@ func C15(c *Ctx) {
 			os.MkdirAll(filepath.Dir(p), 0o755)
 			os.WriteFile(p, []byte(text), 0o644)
 		}
+		if cfg.failFirst != "" {
+			bad := filepath.Join(src, "p", "zz_rejected.go")
+			os.WriteFile(bad, []byte(cfg.failFirst), 0o644)
+			r0 := work.Run(work.Cmd{Dir: sc.Dir, Env: work.Env(cfg.env...), Argv: []string{ccdrv, "compile", src + ":" + dst}, Timeout: 15 * time.Minute})
+			if !strings.Contains(string(r0.Out), "PANIC:") {
+				return result{cfg: cfg.name, err: "the first run was expected to be rejected by the compiler:\n" + tail(string(r0.Out), 1500)}
+			}
+			os.Remove(bad)
+			os.Remove(filepath.Join(src, cfg.dropFile))
+		}
 		argv := []string{ccdrv, "compile"}
 		if cfg.first != nil {
 			fsrc, fdst := filepath.Join(root, "first", "src"), filepath.Join(root, "first", "out")
@@ -207,6 +256,12 @@ func C15(c *Ctx) {
 		}
 		for _, f := range cfg.files {
 			bs, err := os.ReadFile(filepath.Join(dst, f.pkg, f.name))
+			if cfg.dropFile == f.pkg+"/"+f.name {
+				if err == nil {
+					res.err = "stale: an output was generated for " + cfg.dropFile + ", a source file that was deleted after an earlier, rejected run"
+				}
+				continue
+			}
 			if err != nil {
 				if strings.Contains(f.text, "go-co") {
 					res.err = "missing output " + f.pkg + "/" + f.name
@@ -262,12 +317,17 @@ func C15(c *Ctx) {
 		if r.err != "" {
 			if strings.Contains(r.err, "left behind") {
 				c.Rep.Violate(verdict.Violation{Case: "cfg:" + r.cfg, Sig: "tmp-left-behind", What: r.err})
+			} else if strings.HasPrefix(r.err, "stale:") {
+				c.Rep.Violate(verdict.Violation{Case: "cfg:" + r.cfg, Sig: "stale-output-after-rejected-run", What: r.err})
 			} else {
 				c.Rep.HarnessError(r.cfg + ": " + r.err)
 			}
 			continue
 		}
 		for rel, want := range base.files {
+			if r.cfg == "after-a-rejected-run-into-the-same-dst" && rel == "p/f00.go" {
+				continue
+			}
 			got, ok := r.files[rel]
 			compared++
 			c.Rep.Distinct(r.cfg + "/" + rel)
@@ -280,6 +340,11 @@ func C15(c *Ctx) {
 					What: fmt.Sprintf("generated file %s differs between configuration %s (sha %s) and %s (sha %s)\nfirst difference:\n%s", rel, results[0].cfg, sum(want), r.cfg, sum(got), firstByteDiff(want, got))})
 			}
 		}
+	}
+	// the generated packages of the baseline configuration build (helper identifiers do not clash)
+	os.WriteFile(filepath.Join(sc.Dir, "cfg00", "out", "p", "shared.go"), []byte("package p\n\nvar SharedG int\n"), 0o644) // the plain file the compiler does not emit
+	if br := sc.Go(20*time.Minute, nil, "build", "./cfg00/out/p"); br.Code != 0 {
+		c.Rep.Violate(verdict.Violation{Case: "build:cfg00/out/p", Sig: "generated-package-does-not-build:" + buildSig(string(br.Out)), What: "the generated package of the baseline configuration does not build:\n" + trimTo(string(br.Out), 2000)})
 	}
 	// helper identifiers
 	clashFiles := 0
@@ -302,7 +367,7 @@ func C15(c *Ctx) {
 		names = append(names, cfg.name)
 	}
 	c.Rep.Sample(map[string]any{"configurations": names, "example_file": "p/f00.go", "sha256_prefix": sum(base.files["p/f00.go"])})
-	c.Rep.Rule = "source files = generated programs (sequential and nested range loops, scope/ctl/fx shapes, 5 import styles) + the repository's own rewriter/test/src corpus; each compiled by the stand-alone driver as fresh processes in these configurations: alone (repeated, GOMAXPROCS 1/4/16), among extra co files sorting before and after it, among other packages and sub-directories, as the SECOND Compile call of a process, into dst and dst_tmp pre-populated with outputs of a different earlier run, under a different absolute root path; oracle: bytes of every generated file identical to the first configuration, no temp dir left, counter-suffixed helper identifiers unique per file. distinct = configuration x file."
+	c.Rep.Rule = "source files = generated programs (sequential and nested range loops, scope/ctl/fx shapes, 5 import styles) + the repository's own rewriter/test/src corpus; each compiled by the stand-alone driver as fresh processes in these configurations: alone (repeated, GOMAXPROCS 1/4/16), among extra co files sorting before and after it, among other packages and sub-directories, as the SECOND Compile call of a process, into dst and dst_tmp pre-populated with outputs of a different earlier run, under a different absolute root path, after an earlier run into the same dst that the compiler rejected half-way (a source file deleted in between must not get an output); oracle: bytes of every generated file identical to the first configuration, no temp dir left, the generated package builds, counter-suffixed helper identifiers unique per file. distinct = configuration x file."
 	c.Rep.Assumptions = append(c.Rep.Assumptions, "process-level nondeterminism (map seeds, scheduler) is sampled by repeated fresh processes, not enumerated")
 	c.Rep.RequireDistinct(40)
 }
